@@ -38,7 +38,7 @@ ASSUMPTIONS = [
     "a send 'has been handed to the operating system' when the fake socket's send()/sendto() accepted the bytes",
     "asyncio's transport buffer is FIFO: sender i's bytes are on the wire once the wire holds the cumulative size up to i",
 ]
-BOUNDS = {"quick": "busy-placement bound 3", "thorough": "busy-placement bound 4"}
+BOUNDS = {"quick": "busy-placement bound 3; flow-control BFS with <= 3 drains; <= 3 stream senders; <= 2 datagram senders", "thorough": "busy-placement bound 4; flow-control BFS with <= 4 drains; <= 4 stream senders (3 more size sets); <= 3 datagram senders"}
 
 
 # ---------------------------------------------------------------------------------------------------------
@@ -118,10 +118,10 @@ def wfc_build(history: tuple[str, ...]) -> dict:
     return out
 
 
-def wfc_enabled(history: tuple[str, ...], st: dict) -> list[str]:
+def wfc_enabled(history: tuple[str, ...], st: dict, max_drains: int = MAX_DRAINS) -> list[str]:
     n = history.count("D")
     evs = []
-    if n < MAX_DRAINS:
+    if n < max_drains:
         evs.append("D")
     evs += ["P", "R"]
     if st["lost"] is None:
@@ -172,7 +172,7 @@ def wfc_invariant(history: tuple[str, ...], st: dict) -> str | None:
     return None
 
 
-def run_wfc(res: JobResult) -> None:
+def run_wfc(res: JobResult, max_drains: int = MAX_DRAINS) -> None:
     init = wfc_build(())
     seen = {init["canon"]: ()}
     frontier: collections.deque = collections.deque([((), init)])
@@ -180,7 +180,7 @@ def run_wfc(res: JobResult) -> None:
     outcomes: set = set()
     while frontier:
         hist, st = frontier.popleft()
-        for ev in wfc_enabled(hist, st):
+        for ev in wfc_enabled(hist, st, max_drains):
             h2 = hist + (ev,)
             nxt = wfc_build(h2)
             res.evaluations += 1
@@ -345,7 +345,7 @@ PEERS = ("all", "step1", "step3", "reset", "close", "stop")
 
 def stream_jobs(tier: str) -> list[dict]:
     out = []
-    for sizes in SIZE_SETS:
+    for sizes in (SIZE_SETS if tier == "quick" else SIZE_SETS + [(4, 1, 12), (12, 12, 12), (1, 4, 12, 4)]):
         for cap in (1, 3, 10):
             for peer in PEERS:
                 for api in ("send_all", "iter"):
@@ -520,7 +520,7 @@ def oracle_dgram(cfg: dict, obs: dict) -> str | None:
 def dgram_jobs(tier: str) -> list[dict]:
     out = []
     for obj in ("endpoint", "listener"):
-        for senders in (1, 2):
+        for senders in ((1, 2) if tier == "quick" else (1, 2, 3)):
             for eagain in (0, 1, 2):
                 for env in ("writable", "error", "close", "never"):
                     if eagain == 0 and env != "writable":
@@ -565,7 +565,7 @@ def jobs(tier: str) -> list[dict]:
 def run_job(job: dict) -> JobResult:
     res = JobResult()
     if job["part"] == "wfc":
-        run_wfc(res)
+        run_wfc(res, MAX_DRAINS if job["tier"] == "quick" else MAX_DRAINS + 1)
     elif job["part"] == "stream":
         run_stream_job(job, res)
     else:
